@@ -313,13 +313,21 @@ def _work(cases):
     return out
 
 
-def run_cases(cases, root, procs=16, chunk=60):
+def run_cases(cases, root, procs=12):
     """Execute the cases on the real code in worker processes; the result keeps the order of `cases`."""
     if not cases:
         return []
-    # slow backends first, so that the pool is busy until the end
+    # slow backends first and in small chunks, so that the pool is busy until the end
     order = sorted(range(len(cases)), key=lambda i: -BACKEND_COST[cases[i]["backend"]])
-    chunks = [order[i:i + chunk] for i in range(0, len(order), chunk)]
+    chunks, cur, cost = [], [], 0.0
+    for i in order:
+        cur.append(i)
+        cost += BACKEND_COST[cases[i]["backend"]]
+        if cost >= 1500:                       # ~1.5 s of work
+            chunks.append(cur)
+            cur, cost = [], 0.0
+    if cur:
+        chunks.append(cur)
     ctxmp = multiprocessing.get_context("spawn")
     events = [None] * len(cases)
     with cf.ProcessPoolExecutor(max_workers=min(procs, len(chunks)), mp_context=ctxmp,
@@ -335,7 +343,7 @@ def run_cases(cases, root, procs=16, chunk=60):
     return events
 
 
-BACKEND_COST = {"inmem": 1, "journal": 3, "grpc": 12, "sqlite": 40, "cached": 40}     # rough ms per trial, for scheduling only
+BACKEND_COST = {"inmem": 0.6, "journal": 2.5, "grpc": 20, "sqlite": 65, "cached": 65}     # rough CPU ms per history, for scheduling only
 
 
 # ---------------------------------------------------------------------------------------------
@@ -367,14 +375,15 @@ def plan_cases(ctx):
     quick = ctx.quick
     cases = []
     counts = {}
+    executed = {}
     insts = ["q1", "q2", "q3"] if quick else ["q1", "q2", "q3", "t1", "t2", "t3", "t4"]
-    share = {"q1": 1.0, "q2": 1.0, "q3": 0.25, "t1": 0.5, "t2": 0.25, "t3": 0.1, "t4": 0.02}
+    share = {"q1": 1.0, "q2": 1.0, "q3": 0.25, "t1": 0.25, "t2": 0.1, "t3": 0.1, "t4": 0.02}
     tell_share = {"q1": 0.25, "q2": 0.15, "q3": 0.1, "t1": 0.2, "t2": 0.1, "t3": 0.1, "t4": 0.1}
     if quick:
-        other = {"q1": {"journal": 900, "grpc": 160, "sqlite": 420, "cached": 60},
-                 "q2": {"journal": 400, "grpc": 60, "sqlite": 60, "cached": 20},
-                 "q3": {"journal": 200, "grpc": 30, "sqlite": 30, "cached": 10}}
-        n_rand = {"inmem": 4000, "journal": 800, "grpc": 120, "sqlite": 160, "cached": 40}
+        other = {"q1": {"journal": 1500, "grpc": 200, "sqlite": 450, "cached": 60},
+                 "q2": {"journal": 600, "grpc": 80, "sqlite": 60, "cached": 20},
+                 "q3": {"journal": 300, "grpc": 40, "sqlite": 30, "cached": 10}}
+        n_rand = {"inmem": 4000, "journal": 1000, "grpc": 150, "sqlite": 180, "cached": 40}
     else:
         other = {"q1": {"journal": 8000, "grpc": 2500, "sqlite": 5000, "cached": 1000},
                  "t1": {"journal": 8000, "grpc": 2500, "sqlite": 5000, "cached": 1000},
@@ -392,6 +401,7 @@ def plan_cases(ctx):
             n += 1
             full = share[name] >= 1.0 or rng.random() < share[name]
             if full:
+                executed[name] = executed.get(name, 0) + 1
                 cases.append(case("inmem", "add", "num", dirs, hist))
             if interesting(dirs, hist):
                 seen += 1
@@ -420,7 +430,7 @@ def plan_cases(ctx):
             mode = rng.choice(["add", "tell"])
             cases.append(case(backend, mode, "num" if mode == "add" else rng.choice(orders), dirs, hist,
                               rng.randrange(1 << 30)))
-    return cases, counts
+    return cases, counts, executed
 
 
 # ---------------------------------------------------------------------------------------------
@@ -453,7 +463,9 @@ def judge(ctx, events, label="histories"):
         for tid in rej:
             e = events[tid - 1]
             qs = bad.get(tid, [])
-            what = ", ".join(f"{names[q]}={_show(e[q])}" for q in qs) or "malformed event / not diagnosed"
+            what = ", ".join(f"{names[q]}={_show(e[q])}" for q in qs) or "event (not diagnosed per reply)"
+            if any(x == BAD for t in e["h"] for x in t["v"] + t["c"]):
+                what = "a value read back from the study is outside the integer lattice (shown as 7777);" + what
             ctx.violation(f"[{e['backend']}/{e['mode']}/{e['order']}] {what} is not admitted by Best.tla for "
                           f"directions={e['dirs']} history={_show_h(e['h'])}",
                           {"event": {k: e[k] for k in e if k != "sent"}, "case": {
@@ -493,36 +505,67 @@ def run(ctx):
                 "judged by TLC against Best.tla; distinct = distinct (backend, mode, order, directions, history) with "
                 ">= 2 COMPLETE trials")
     cfgs = ["q1", "q2", "q3"] + ([] if ctx.quick else ["t1", "t2", "t3", "t4"])
-    # the spec instances are checked while the worker processes drive optuna
-    results = {}
+    # the spec instances are checked by TLC while the worker processes drive optuna
+    results, err = {}, []
 
     def mc():
-        for c in cfgs:
-            results[c] = tlc.require_model("BestMC", "BestMC_" + c, must_cover=["AddTrial", "Judge"],
-                                           workers=8, timeout=3000)
-    err = []
-
-    def mc_guard():
         try:
-            mc()
+            for c in cfgs:
+                results[c] = tlc.require_model("BestMC", "BestMC_" + c, must_cover=["AddTrial", "Judge"],
+                                               workers=8, timeout=3000)
         except BaseException as e:  # re-raised in the main thread
             err.append(e)
-    th = threading.Thread(target=mc_guard)
+    th = threading.Thread(target=mc)
     th.start()
     root = data_root()
+    per_backend, drift = {}, 0
+    sel_bt = sel_bts = None
+    n_events = 0
     try:
         t0 = time.time()
-        cases, counts = plan_cases(ctx)
-        t1 = time.time()
-        events = run_cases(cases, root, procs=12 if ctx.quick else 14)
-        t2 = time.time()
+        cases, counts, executed = plan_cases(ctx)
+        print(f"[{ctx.pid}] planned {len(cases)} cases in {time.time() - t0:.1f}s", flush=True)
+        batch = 150000
+        for lo in range(0, len(cases), batch):
+            t1 = time.time()
+            events = run_cases(cases[lo:lo + batch], root, procs=12 if ctx.quick else 14)
+            print(f"[{ctx.pid}] {len(events)} histories built and queried on the real storages in {time.time() - t1:.1f}s",
+                  flush=True)
+            for e in events:
+                key = f"{e['backend']}|{e['mode']}|{e['order']}|{e['dirs']}|{e['sent']}"
+                ctx.count_case(key, nontrivial=interesting(e["dirs"], e["sent"]))
+                pb = per_backend.setdefault(e["backend"], {"cases": 0, "cpu_s": 0.0})
+                pb["cases"] += 1
+                pb["cpu_s"] += e.get("ms", 0) / 1000
+                if e["h"] != e["sent"]:
+                    drift += 1
+                    if len(ctx.drift) < 5:
+                        ctx.drift.append({"backend": e["backend"], "sent": e["sent"], "read_back": e["h"]})
+            if lo == 0:
+                th.join()           # quick: TLC has the machine to itself for the validation
+            v = judge(ctx, events, f"histories {lo + 1}..{lo + len(events)}")
+            n_events += len(events)
+            for e in events[:: max(1, len(events) // 5)][:5]:
+                ctx.sample(_public(e))
+            # accepted events to corrupt in the binding self-tests
+            for i, e in enumerate(events):
+                if (i + 1) not in v.accepted:
+                    continue
+                if sel_bt is None and e["bt"]["k"] == "ok" and len(e["dirs"]) == 1 and not any(t["hc"] for t in e["h"]) \
+                        and len({t["v"][0] for t in e["h"] if t["s"] == "COMPLETE"}) >= 2:
+                    sel_bt = _public(e)
+                if sel_bts is None and len(e["bts"]["ns"]) >= 2:
+                    sel_bts = _public(e)
+                if sel_bt and sel_bts:
+                    break
+            del events
+            if len(ctx.violations) >= 10:
+                break
     finally:
         th.join()
         shutil.rmtree(root, ignore_errors=True)
     if err:
         raise err[0]
-    print(f"[{ctx.pid}] planned {len(cases)} cases in {t1 - t0:.1f}s, executed on the real storages in {t2 - t1:.1f}s",
-          flush=True)
     for c in cfgs:
         r = results[c]
         ctx.model(r, "BestMC_" + c)
@@ -530,50 +573,30 @@ def run(ctx):
             raise tlc.MachineryError(f"instance {c}: spec has {r.coverage['Judge'][0]} inputs, harness enumerates "
                                      f"{instance_size(c)} / generated {counts.get(c)}")
     ctx.exhaustive = True
-    per_backend = {}
-    drift = 0
-    for e in events:
-        key = f"{e['backend']}|{e['mode']}|{e['order']}|{e['dirs']}|{e['sent']}"
-        ctx.count_case(key, nontrivial=interesting(e["dirs"], e["sent"]))
-        pb = per_backend.setdefault(e["backend"], {"cases": 0, "cpu_s": 0.0})
-        pb["cases"] += 1
-        pb["cpu_s"] += e.get("ms", 0) / 1000
-        if e["h"] != e["sent"]:
-            drift += 1
-            if len(ctx.drift) < 5:
-                ctx.drift.append({"backend": e["backend"], "sent": e["sent"], "read_back": e["h"]})
     ctx.notes["exhaustive_instances"] = {c: {"inputs": instance_size(c), "equals_spec_cardinality": True,
-                                             "executed_on_inmem_add": sum(1 for _ in ())} for c in counts}
-    for c in counts:
-        ctx.notes["exhaustive_instances"][c].pop("executed_on_inmem_add")
+                                             "executed_in_memory_via_add_trial": executed.get(c, 0)} for c in counts}
     for pb in per_backend.values():
         pb["cpu_s"] = round(pb["cpu_s"], 1)
     ctx.notes["cases_per_backend"] = per_backend
-    print(f"[{ctx.pid}] cases per backend: {per_backend}", flush=True)
     ctx.notes["histories_read_back_differently"] = drift
-    v = judge(ctx, events)
-    for e in events[:: max(1, len(events) // 5)][:5]:
-        ctx.sample(_public(e))
+    print(f"[{ctx.pid}] cases per backend: {per_backend}; histories read back differently from what was sent: {drift}",
+          flush=True)
+    if ctx.violations:
+        return
     # binding self-tests: a wrong best trial / a missing front member must be rejected
-    acc = next((e for i, e in enumerate(events) if (i + 1) in v.accepted and e["bt"]["k"] == "ok"
-                and len(e["dirs"]) == 1 and n_complete(e["h"]) >= 2
-                and len({t["v"][0] for t in e["h"] if t["s"] == "COMPLETE"}) >= 2 and not any(t["hc"] for t in e["h"])), None)
-    if acc is None:
-        raise tlc.MachineryError("no accepted single-objective event with two different COMPLETE values")
+    if sel_bt is None or sel_bts is None:
+        raise tlc.MachineryError("no accepted event suitable for the binding self-tests")
 
     def corrupt_bt(t):
         e = t["ev"][0]
         best = e["h"][e["bt"]["n"]]["v"][0]
         e["bt"]["n"] = next(i for i, x in enumerate(e["h"]) if x["s"] == "COMPLETE" and x["v"][0] != best)
         e["q"] = ["bt"]
-    ctx.binding_selftest("BestTrace", "BestTrace", {"tid": 1, "ev": [_public(acc)]}, corrupt_bt, "best_trial -> worse trial")
-    acc2 = next((e for i, e in enumerate(events) if (i + 1) in v.accepted and len(e["bts"]["ns"]) >= 2), None)
-    if acc2 is None:
-        raise tlc.MachineryError("no accepted event with two trials on the front")
+    ctx.binding_selftest("BestTrace", "BestTrace", {"tid": 1, "ev": [sel_bt]}, corrupt_bt, "best_trial -> worse trial")
 
     def corrupt_bts(t):
         t["ev"][0]["bts"]["ns"] = t["ev"][0]["bts"]["ns"][1:]
-    ctx.binding_selftest("BestTrace", "BestTrace", {"tid": 1, "ev": [_public(acc2)]}, corrupt_bts, "best_trials minus one")
+    ctx.binding_selftest("BestTrace", "BestTrace", {"tid": 1, "ev": [sel_bts]}, corrupt_bts, "best_trials minus one")
     ctx.assumptions += [
         "objective and constraint values are small integers or +-inf, so the projection to integers is exact",
         "D8: a best-valued trial without constraint values may be returned although a feasible trial exists; only a "
@@ -582,6 +605,8 @@ def run(ctx):
         "D11: storage.get_best_trial on a multi-objective study without COMPLETE trials may raise RuntimeError or ValueError",
         "a study counts as constrained for best_trials once any trial (of any state) carries constraint values; "
         "trials without constraint values are then infeasible (documented in _get_feasible_trials)",
+        "optuna.create_study wraps an RDBStorage in _CachedStorage (storages.get_storage), so `sqlite' and `cached' "
+        "reach the same code; FAIL trials with values exist only through the storage API (add_trial refuses them)",
         "storages live on tmpfs (/dev/shm) when available: durability is not part of this property",
     ]
 
